@@ -2,6 +2,7 @@
    All statements are about ANY previous outcome and ANY observation list (a fortiori any history). *)
 From stdpp Require Import gmap.
 From DS Require Import Base Decimal StreamValue Aggregators Outcome OutcomeProofs StepTheorems HistoryProofs HistoryLifts NvHistory.
+From DS Require BytesHistory.
 Open Scope Z_scope.
 
 Theorem C05_initial_stage : forall h cf seq prev aos next,
@@ -38,6 +39,24 @@ Theorem C05_retired_forever : forall h cf (es : list event) (e0 : event),
   forall e, e ∈ (e0 :: es) -> o_stage (ev_next e) = Retired /\ o_defs (ev_next e) = o_defs (ev_prev e0).
 Proof. exact retired_forever. Qed.
 Print Assumptions C05_retired_forever.
+
+(* the same two laws over histories ON THE WIRE (BytesHistory: byte-level events of Plugin.Outcome linked by their bytes) *)
+Theorem C05_stage_monotone_on_the_wire : forall h check cf (bs : list BytesHistory.bevent) (b0 : BytesHistory.bevent),
+  BytesHistory.check_typed check -> Forall (BytesHistory.bvalid h check cf) (b0 :: bs) -> BytesHistory.blinked (b0 :: bs) ->
+  known_stage (o_stage (BytesHistory.dec_or_initial cf (BytesHistory.bv_prev b0))) ->
+  forall b, In b (b0 :: bs) ->
+    stage_le (o_stage (BytesHistory.dec_or_initial cf (BytesHistory.bv_prev b0))) (o_stage (BytesHistory.dec_or_initial cf (BytesHistory.bv_next b))) /\
+    known_stage (o_stage (BytesHistory.dec_or_initial cf (BytesHistory.bv_next b))).
+Proof. exact BytesHistory.stage_monotone_on_the_wire. Qed.
+Theorem C05_retired_forever_on_the_wire : forall h check cf (bs : list BytesHistory.bevent) (b0 : BytesHistory.bevent),
+  BytesHistory.check_typed check -> Forall (BytesHistory.bvalid h check cf) (b0 :: bs) -> BytesHistory.blinked (b0 :: bs) ->
+  o_stage (BytesHistory.dec_or_initial cf (BytesHistory.bv_prev b0)) = Retired ->
+  forall b, In b (b0 :: bs) ->
+    o_stage (BytesHistory.dec_or_initial cf (BytesHistory.bv_next b)) = Retired /\
+    o_defs (BytesHistory.dec_or_initial cf (BytesHistory.bv_next b)) = o_defs (BytesHistory.dec_or_initial cf (BytesHistory.bv_prev b0)).
+Proof. exact BytesHistory.retired_forever_on_the_wire. Qed.
+Print Assumptions C05_stage_monotone_on_the_wire.
+Print Assumptions C05_retired_forever_on_the_wire.
 
 (* every round of a retired instance yields exactly the retirement report carrying its validity starts *)
 Theorem C05_retired_reports : forall cf seq o,
